@@ -132,6 +132,7 @@ fn verdict(
                             "idm-admin" => "builtin idm_admin (impersonated read-write identity)",
                             "posix-client-anonymous" => "identity of a fresh anonymous session",
                             "service-account" => "the service account's own API token",
+                            "anonymous" => "the anonymous account itself (token issued before the window was written / a new anonymous login)",
                             _ => "the account itself",
                         },
                     }),
@@ -596,6 +597,71 @@ async fn service_case(w: &mut World, rng: &mut Rng, acc: &mut Acc, wi: usize) {
     w.t = w.t.max(times.last().copied().unwrap_or(0).min(w.t + 30 * 86400)) + 100;
 }
 
+/// The builtin anonymous account is an account like any other: it can be given a validity window
+/// ("expired to prevent its use"). A token it was issued before must stop working outside the
+/// window, and new anonymous logins must be refused. The window is opened again afterwards, because
+/// the other cases use a fresh anonymous session as the POSIX client.
+async fn anonymous_case(w: &mut World, rng: &mut Rng, acc: &mut Acc, wi: usize) {
+    w.n += 1;
+    w.t += 50;
+    let (wname, ovf, oex) = WINDOWS[wi];
+    if let Err(e) = w.sim.set_validity(UUID_ANONYMOUS, None, None, secs(w.t)).await {
+        acc.inconclusive(&format!("anonymous validity reset: {e:?}"));
+        return;
+    }
+    w.t += 2;
+    let l = w.t;
+    let tok = match w.sim.login("anonymous", false, AuthMech::Anonymous, vec![C::Anonymous], secs(w.t)).await {
+        Ok(t) => t,
+        Err(e) => {
+            acc.observe("anonymous_case_login_failures", &e.chars().take(80).collect::<String>());
+            return;
+        }
+    };
+    let tok_exp = parse_uat(&tok).and_then(|u| u.expiry).map(|e| e.unix_timestamp() as u64);
+    let _ = w.sim.drain(secs(w.t)).await;
+    w.t += 20;
+    let r = w.t + 100;
+    w.t += 5;
+    let vf = ovf.map(|o| r.saturating_add_signed(o));
+    let ex = oex.map(|o| r.saturating_add_signed(o));
+    if let Err(e) = w.sim.set_validity(UUID_ANONYMOUS, vf, ex, secs(w.t)).await {
+        acc.inconclusive(&format!("anonymous validity: {e:?}"));
+        return;
+    }
+    let case = Case {
+        name: "anonymous".into(),
+        uuid: UUID_ANONYMOUS,
+        cred: Cred::Pw,
+        pw: String::new(),
+        totp: None,
+        upw: String::new(),
+        radius_secret: None,
+        vf,
+        ex,
+        wname,
+        token: None,
+        cert: None,
+    };
+    acc.count("case.anonymous");
+    // only while the token itself has not expired (a refusal after that says nothing)
+    let times: Vec<u64> = probe_times(r, vf, ex, rng).into_iter().filter(|t| *t >= w.t && tok_exp.map(|e| *t + 5 < e).unwrap_or(true)).collect();
+    let _ = l;
+    for t in &times {
+        let res = w.sim.present(&tok, secs(*t)).await;
+        verdict(acc, &case, *t, "issued-token", "issued-token-accepted", "anonymous", res.is_ok(), &res.err().map(|e| short_err(&e)).unwrap_or_default());
+        let res = w.sim.login("anonymous", false, AuthMech::Anonymous, vec![C::Anonymous], secs(*t)).await;
+        verdict(acc, &case, *t, "interactive-login", "login", "anonymous", res.is_ok(), &res.err().unwrap_or_default());
+        let _ = w.sim.drain(secs(*t)).await;
+    }
+    w.t = w.t.max(times.last().copied().unwrap_or(0)) + 100;
+    if let Err(e) = w.sim.set_validity(UUID_ANONYMOUS, None, None, secs(w.t)).await {
+        acc.inconclusive(&format!("anonymous validity reopen: {e:?}"));
+    }
+    w.anon_tok = None;
+    w.t += 5;
+}
+
 /// The real LDAP front end reads the wall clock: windows are whole days away from now.
 async fn ldap_frontend_profile(acc: &mut Acc, seed: u64) {
     let now = duration_from_epoch_now();
@@ -734,7 +800,7 @@ pub fn run(args: Args) {
     let mut run = Run::new(
         args.clone(),
         "exploration",
-        "cases = 14 validity window templates (open, expired, not yet, bounded, boundaries seconds away, inverted) x {password, password+totp, generated password} persons with UNIX password and RADIUS secret, plus service accounts with API tokens; every path asked at reference time and at each boundary -1 d, -10 min, -2 s, -1 s, 0, +1 s, +2 s, +10 min, +1 d by every asker; non-trivial case = asked both inside and outside the window; plus 6 wall-clock windows through the real LDAP front end",
+        "cases = 14 validity window templates (open, expired, not yet, bounded, boundaries seconds away, inverted) x {password, password+totp, generated password} persons with UNIX password and RADIUS secret, plus service accounts with API tokens, plus the builtin anonymous account (a token issued before the window is written, and new anonymous logins); every path asked at reference time and at each boundary -1 d, -10 min, -2 s, -1 s, 0, +1 s, +2 s, +10 min, +1 d by every asker; non-trivial case = asked both inside and outside the window; plus 6 wall-clock windows through the real LDAP front end",
     );
     run.assume("the RADIUS server is a service account in the builtin idm_radius_servers group, identified by its own API token; the POSIX client is the anonymous session");
     run.assume("LdapServer::do_op reads the wall clock; its windows are >= 1 day away from now, so the run time does not matter");
@@ -811,6 +877,10 @@ pub fn run(args: Args) {
                         service_case(&mut world, &mut rng, &mut acc, wi).await;
                     }
                     idx += 1;
+                    if idx % n as u64 == wk as u64 {
+                        anonymous_case(&mut world, &mut rng, &mut acc, wi).await;
+                    }
+                    idx += 1;
                 }
             }
         });
@@ -828,6 +898,8 @@ pub fn run(args: Args) {
         "issued-token.end-user",
         "client-certificate.end-user",
         "api-token.service-account",
+        "issued-token.anonymous",
+        "interactive-login.anonymous",
         "ldap-frontend-bind.end-user",
         "ldap-frontend-bound-session.end-user",
     ] {
@@ -840,6 +912,8 @@ pub fn run(args: Args) {
         "issued-token.end-user",
         "client-certificate.end-user",
         "api-token.service-account",
+        "issued-token.anonymous",
+        "interactive-login.anonymous",
         "ldap-frontend-bind.end-user",
         "ldap-frontend-bound-session.end-user",
     ] {
